@@ -118,6 +118,7 @@ class World:
         self.lan.attempts.clear()
         for device in self.lan.devices:
             device.log.clear()
+            device.log_ordinals.clear()
             device.attempts.clear()
         machine_module.getch = lambda: '!'
 
